@@ -918,7 +918,7 @@ class FilterArgStream(Stream):
 
 
 # ---- the shape table of every registered filter ----------------------------------------------
-SUBST = [("nil", None), ("''", ""), ("0", 0), ("e", [])]
+SUBST = [("nil", None), ("''", ""), ("0", 0), ("e", []), ("1", 1)]
 
 
 class ShapeStream(Stream):
